@@ -188,6 +188,14 @@ def run_one(case):
                         flog[_name].append('STOP')
                     blk = edzed.OutputAsync(name, coro=coro0, mode=bd['mode'], f_args=(), stop_data={},
                                             on_error=None, stop_timeout=50 * MS)
+                elif bd.get('slow'):
+                    # the run (for the stop_data, too) takes far longer than the block's stop_timeout:
+                    # the clean-up is cut short and the output task must go with it
+                    async def coro_slow(value, _name=name):
+                        flog[_name].append(value)
+                        await asyncio.sleep(300 * MS)
+                    blk = edzed.OutputAsync(name, coro=coro_slow, mode=bd['mode'], stop_data={'value': 'STOP'},
+                                            on_error=None, stop_timeout=5 * MS)
                 else:
                     async def coro(value, _name=name):
                         await asyncio.sleep(2 * MS)
@@ -447,6 +455,22 @@ class C08(common.Spec):
                 for inst in ('async_init', 'running'):
                     yield dict(case, second=sec, cause=cause, instant=inst, wait_init=False)
 
+    def known_class(self, case, obs):
+        # an OutputAsync in 'wait' or 'start' mode whose runs outlast its stop_timeout: the clean-up goes
+        # on after the timeout (listed finding C08-outputasync-stop-timeout-not-enforced); everything
+        # else about the run is in order
+        if obs.get('leaked_tasks') or obs.get('leaked_timers') or not obs.get('stop_data_last'):
+            return None
+        if not (obs.get('sa_times') and obs.get('stop_timeouts')):
+            return None
+        slow = {f"b{i}" for i, bd in enumerate(case['blocks'])
+                if bd['t'] == 'oasync' and bd.get('slow') and bd.get('mode') in ('wait', 'start')}
+        begun = {nm for k, nm in obs['log'] if k == 'sa_begin'}
+        bound = max([obs['stop_timeouts'].get(nm, 0) for nm in begun] + [0])
+        if slow & begun and max(obs['sa_times']) - min(obs['sa_times']) > bound + 1000:
+            return 'output_cleanup_exceeds_stop_timeout'
+        return None
+
     def clause(self, case, obs):
         if obs['leaked_tasks']:
             kinds = sorted({t.split(' for ')[0].split(' #')[0].split(" '")[0][:40] for t in obs['leaked_tasks']})
@@ -459,7 +483,7 @@ class C08(common.Spec):
             begun = {nm for k, nm in obs['log'] if k == 'sa_begin'}
             bound = max([obs['stop_timeouts'].get(nm, 0) for nm in begun] + [0])
             if max(obs['sa_times']) - min(obs['sa_times']) > bound + 1000:
-                return 'async_cleanup_longer_than_stop_timeout'
+                return self.known_class(case, obs) or 'async_cleanup_longer_than_stop_timeout'
         if not obs['restart_refused']:
             return 'restart_possible'
         if not obs['modify_refused']:
@@ -496,6 +520,8 @@ def gen_case(rng):
             bd['mode'] = rng.choice(['wait', 'cancel', 'start'])
             if rng.random() < 0.3:
                 bd['empty_stop'] = True
+            elif rng.random() < 0.3:
+                bd['slow'] = True
         if t == 'fsm' and rng.random() < 0.5:
             bd['chain'] = True
         blocks.append(bd)
@@ -557,6 +583,11 @@ DIRECTED = [
     _d([dict(t='probe'), dict(_AP), dict(_AP), dict(_AP, init_ms=1)], 'shutdown', 'async_init'),
     _d([dict(t='probe'), dict(t='probe', fault='init_from_value')], None, 'running', wait_init=True, fault_ms=4),
     _d([dict(t='probe'), dict(t='oasync', mode='cancel'), dict(_AP, stop_ms=3)], 'sigterm', 'async_init'),
+    # output runs that outlast the block's stop_timeout ('wait' and 'start': the listed finding
+    # C08-outputasync-stop-timeout-not-enforced; 'cancel': bounded, nothing may be left behind)
+    _d([dict(t='probe'), dict(t='oasync', mode='wait', slow=True)], 'shutdown', 'running'),
+    _d([dict(t='probe'), dict(t='oasync', mode='start', slow=True)], 'shutdown', 'running'),
+    _d([dict(t='probe'), dict(t='oasync', mode='cancel', slow=True)], 'shutdown', 'running'),
     _d([dict(t='probe'), dict(t='oasync', mode='start'), dict(_AP, stop_ms=3)], 'abort', 'async_init'),
     _d([dict(t='probe'), dict(t='oasync', mode='wait'), dict(_AP, stop_ms=3)], 'ctrl_shutdown', 'async_init'),
     _d([dict(t='probe', fault='handler'), dict(_AP, stop_ms=3), dict(t='ofunc'), dict(t='fsm')], None, 'running',
